@@ -39,8 +39,12 @@ def _cert(W):
 CERT_REAL = CheckFn("c07-cert-real", "Model.EinsumCert", "einsum_cert_real", _cert(RealW), imports=_IMP)
 CERT_TROP = CheckFn("c07-cert-trop", "Model.EinsumCert", "einsum_cert_trop", _cert(TropW), imports=_IMP)
 CERT_BOOL = CheckFn("c07-cert-bool", "Model.EinsumCert", "einsum_cert_bool", _cert(Bool), imports=_IMP)
+def _rcase(W, WO):
+    return Tup(List(Tup(List(Tup(Pos, Nat, Nat)), Nat, List(W))), List(PnT), Tup(List(Nat), List(List(Nat))), _wres(WO))
+RED_REAL = CheckFn("c07-reduce-real", "Model.EinsumCheck", "reduce_check_real", _rcase(RealW, RealWO), imports=_IMP)
+RED_TROP = CheckFn("c07-reduce-trop", "Model.EinsumCheck", "reduce_check_trop", _rcase(TropW, TropW), imports=_IMP)
 CERT_VIT = CheckFn("c07-cert-vit", "Model.EinsumCert", "viterbi_cert_trop", _cert(TropW), imports=_IMP)
-CHECKFNS = [REAL, TROP, BOOL, VIT, CERT_REAL, CERT_TROP, CERT_BOOL, CERT_VIT]
+CHECKFNS = [REAL, TROP, BOOL, VIT, CERT_REAL, CERT_TROP, CERT_BOOL, CERT_VIT, RED_REAL, RED_TROP]
 
 ASSUMPTIONS = [
     "PhysicalAxis objects are numbered by the harness (uid); fresh axes made by the library (freshen, default_to, unification splits) are only required to be fresh",
@@ -201,10 +205,14 @@ def gen_case(rng, sig, sem, budget=300, feature=None, variant="einsum"):
     inputs, output = sig
     nl = 1 + max([l for w in inputs for l in w] + [-1])
     ltypes = gen_label_types(rng, nl, budget, feature)
-    share_pool = rng.random() < 0.3 or feature == "freshen"
+    if feature == "freshen-skip":
+        t1 = rng.choice([t for t in label_types()["small"] if U.tsize(t) <= 4])
+        ltypes = [t1] * nl
+    share_pool = (rng.random() < 0.3 or feature == "freshen") and feature != "freshen-skip"
     pool = U.Pool()
     ops = []
     kw = dict(p_phys=rng.choice([0.2, 0.35, 0.6, 0.9]), p_share=rng.choice([0.2, 0.4, 0.7]))
+    if feature == "chain": kw = dict(p_phys=rng.choice([0.7, 0.9, 1.0]), p_share=rng.choice([0.0, 0.2]))
     for w in inputs:
         for _ in range(50):
             spec, pl = gen_operand(rng, [ltypes[l] for l in w], pool.copy() if share_pool else U.Pool(pool.next), sem,
@@ -225,7 +233,7 @@ def gen_case(rng, sig, sem, budget=300, feature=None, variant="einsum"):
         genabled = False                      # called under torch.no_grad(), as SumProduct.forward does
     elif rng.random() < 0.3:
         genabled = False
-    if variant == "vit" and feature != "posinf":
+    if sem == "vit" and variant == "vit" and feature != "posinf":
         # log_viterbi_einsum_forward computes inf + -inf = nan (finding F23): +inf only in its own stream
         for s in ops:
             s["storage"] = [4.0 if x == INF else x for x in s["storage"]]
@@ -322,6 +330,8 @@ VERDICTS = {1: "result has the wrong shape", 2: "result differs from the semirin
             17: "the model's own pointers fail argmax_ok", 20: "malformed wire tensor", 21: "malformed signature"}
 
 def nontrivial(case):
+    if case.get("variant") == "reduce":
+        return any(d[2] == 0 or d[1] == 1 for v in case["views"] for d in v["dims"])
     for s in case["ops"]:
         if any(e[0] != "Phys" for e in s["vaxes"]): return True
         if len({e[1][0] for e in s["vaxes"]}) < len(s["vaxes"]): return True
@@ -330,6 +340,49 @@ def nontrivial(case):
 
 def is_dup_output(case):
     return len(set(case["output"])) < len(case["output"])
+
+# ---------------------------------------------------------------------------- reduce_equation called directly
+def gen_reduce_case(rng, sem):
+    """strided torch tensors (stride-0 and size-1 dimensions, summed or not) and an equation over them"""
+    nv = rng.randint(1, 4)
+    sizes = [rng.choice([1, 1, 2, 3, 2]) for _ in range(nv)]
+    views = []
+    for _ in range(rng.randint(1, 3)):
+        vars_ = rng.sample(range(nv), rng.randint(0, min(nv, 3)))
+        dims = []; acc = 1
+        for v in reversed(vars_):
+            st = 0 if rng.random() < 0.3 else acc
+            if st: acc *= sizes[v]
+            dims.insert(0, (v + 1, sizes[v], st))
+        off = rng.choice([0, 0, 1])
+        n = off + sum((m - 1) * st for _, m, st in dims) + 1
+        views.append(dict(dims=dims, offset=off, storage=gen_vals(sem, n, rng)))
+    used = sorted({d[0] for v in views for d in v["dims"]})
+    if rng.random() < 0.6: out = list(used)
+    else: out = rng.sample(used, rng.randint(0, len(used)))
+    rng.shuffle(out)
+    return dict(sem=sem, views=views, out=[(k, sizes[k - 1]) for k in out], variant="reduce")
+
+def run_reduce_impl(case):
+    import torch, torch_semiring_einsum
+    from fggs.equation import reduce_equation, post_einsum
+    sem = case["sem"]; sr = semiring_of(sem)
+    ts = []
+    for v in case["views"]:
+        st = torch.tensor([to_torch_val(sem, x) for x in v["storage"]], dtype=torch_dtype(sem))
+        ts.append(st.as_strided([d[1] for d in v["dims"]], [d[2] for d in v["dims"]], v["offset"]))
+    eq = ",".join("".join(chr(96 + d[0]) for d in v["dims"]) for v in case["views"]) + "->" + "".join(chr(96 + k) for k, _ in case["out"])
+    exc = None; spy = ([], [])
+    try:
+        compiled = torch_semiring_einsum.compile_equation(eq)
+        rv, req, unsq, oshape = reduce_equation(compiled, ts)
+        spy = ([int(i) for i in unsq], [[int(n) for n in t.shape] for t in rv])
+        out = post_einsum(sr.einsum(req, *rv), unsq, oshape)
+        res = (0, [int(n) for n in out.shape], [wire_out(sem, y) for y in out.flatten().tolist()])
+    except Exception as e:
+        res = (2, [], []); exc = repr(e) + " " + traceback.format_exc()[-400:]
+    wv = [([(d[0], d[1], d[2]) for d in v["dims"]], v["offset"], [wire_val(sem, x) for x in v["storage"]]) for v in case["views"]]
+    return (wv, [tuple(kn) for kn in case["out"]], spy, res), exc
 
 # ---------------------------------------------------------------------------- driver
 def make_cases(tier, seed):
@@ -386,11 +439,37 @@ def make_cases(tier, seed):
     for i in range(180 if quick else 8000):
         sig = rng.choice(sigs)
         cases.append(gen_case(rng, sig, "vit", variant="vit", feature=rng.choice([None, None, "broadcast", "unit", "zero", "grad", "freshen", "posinf"]) if sig[0] else None))
-    for i in range(12 if quick else 200):
-        ins, out = rng.choice([s for s in sigs if s[1]])
+    with_out = [s for s in sigs if s[1]]
+    for i in range(36 if quick else 600):
+        ins, out = rng.choice(with_out)
         out = out + [rng.choice(out)]
-        cases.append(gen_case(rng, (ins, out), SEMS[i % 4], variant="einsum" if i % 3 else "vit", feature="dup-output")
-                     if i % 3 else gen_case(rng, (ins, out), "vit", variant="vit", feature="dup-output"))
+        if rng.random() < 0.4: rng.shuffle(out)
+        if i % 3 == 0: cases.append(gen_case(rng, (ins, out), SEMS[i % 4], variant="einsum", feature="dup-output"))
+        else: cases.append(gen_case(rng, (ins, out), "vit", variant="vit", feature="dup-output"))
+    # (4') an index with >= 4 attachments (chains of bound axes in the substitution; 4-5 operands)
+    for i in range(40 if quick else 1200):
+        nops = rng.choice([3, 4, 4, 5])
+        ins = [[0] + ([1] if rng.random() < 0.3 else []) for _ in range(nops)]
+        if nops == 3: ins = [[0, 0], [0] + ([1] if rng.random() < 0.5 else []), [0, 0] if rng.random() < 0.5 else [0, 1, 0]]
+        used = 1 + max(l for w in ins for l in w)
+        out = rng.sample(range(used), rng.randint(0, used))
+        var = "vit" if i % 5 == 4 else "einsum"
+        c = gen_case(rng, (ins, out), "vit" if var == "vit" else SEMS[i % 4], budget=60, variant=var, feature="chain")
+        cases.append(c)
+    # (4'') the third operand shares its physical axes with the first one but not with the second
+    for i in range(40 if quick else 1000):
+        a = rng.choice([[0], [0, 1], [0, 0], [0, 1, 2], [1, 0]])
+        mid = rng.choice([[1], [0], [2], [1, 2], [0, 2], []])
+        # the third operand is the first tensor again, under other index labels (all labels get the same type)
+        a2 = rng.choice([list(a), list(reversed(a)), [(l + 1) % 3 for l in a], [2 - l for l in a], [1] * len(a)])
+        ins = [list(a), mid, a2]
+        present = sorted({l for w in ins for l in w})
+        out = rng.sample(present, rng.randint(0, len(present)))
+        var = "vit" if i % 6 == 5 else "einsum"
+        c = gen_case(rng, (ins, out), "vit" if var == "vit" else SEMS[i % 4], variant=var, feature="freshen-skip")
+        c["ops"][2] = dict(c["ops"][0])
+        if rng.random() < 0.5: c["ops"][2]["storage"] = list(reversed(c["ops"][0]["storage"]))
+        cases.append(c)
     # (5) larger random signatures (up to 3 operands of rank 3)
     for i in range(50 if quick else 4000):
         nops = rng.choice([1, 2, 2, 3, 3]); used = 0; ins = []
@@ -439,6 +518,15 @@ def run(tier, seed):
         if case["ops"] and nenv <= CERT_LIMIT:
             ccf = CERT_VIT if case["variant"] == "vit" else certfn_of(case)
             certs.setdefault(ccf.kind, (ccf, []))[1].append((ci, (wire_case(case, res, spy, ptr)[0], case["inputs"], case["output"], next_uid(case))))
+    # reduce_equation / post_einsum called directly
+    rrng = random.Random(seed * 7919 + 77)
+    rcases = [gen_reduce_case(rrng, "real" if i % 2 else "vit") for i in range(150 if tier == "quick" else 6000)]
+    for rc in rcases:
+        v, exc = run_reduce_impl(rc)
+        cf = RED_REAL if rc["sem"] == "real" else RED_TROP
+        by.setdefault(cf.kind, (cf, []))[1].append((len(cases), v, v[3], exc)); cases.append(rc)
+        results.append((len(cases) - 1, v[3], exc))
+        hist["variant"]["reduce"] = hist["variant"].get("reduce", 0) + 1
     jobs = []; order = []
     for kind, (cf, l) in list(by.items()) + list(certs.items()):
         jobs.append((cf, [v[1] for v in l], kind.replace("-", ""), 10 if tier == "quick" else 25)); order.append((cf, l))
@@ -455,11 +543,9 @@ def run(tier, seed):
             verdicts[c] = verdicts.get(c, 0) + 1
             if c == 0: continue
             case = cases[ci]
-            call = {"einsum": "fggs.indices.einsum(tensors, inputs, output, semiring).to_dense()", "mv": "PatternedTensor.mv", "mm": "PatternedTensor.mm",
+            call = {"reduce": "fggs.equation.reduce_equation + semiring.einsum + post_einsum", "einsum": "fggs.indices.einsum(tensors, inputs, output, semiring).to_dense()", "mv": "PatternedTensor.mv", "mm": "PatternedTensor.mm",
                     "vit": "fggs.indices.log_viterbi_einsum_forward"}[case["variant"]]
             key = None
-            if c == 3 and case["variant"] == "vit" and is_dup_output(case) and res[0] == 1:
-                key = "viterbi_repeated_output_index_keyerror"
             if c == 3 and case["variant"] == "vit" and exc and exc.startswith("ValueError('nan')") and has_both_infs(case):
                 key = "viterbi_forward_posinf_plus_neginf_nan"
             what = "%s [%s]: %s (verdict %d)%s" % (case["variant"], case["sem"], VERDICTS.get(c, "?"), c, (" -- " + exc[:200]) if exc else "")
@@ -475,13 +561,13 @@ def run(tier, seed):
     cov = dict(evaluations=len(results), distinct_nontrivial=distinct,
                rule="cases = einsum signature x one typed patterned tensor per operand x semiring x requires_grad / grad mode; "
                     "signatures: all %d signatures with <= 3 operands, <= 4 indices (operand rank <= 3 and <= 5 index positions, or rank <= 2 and <= 6 positions; every ordered "
-                    "selection of distinct output indices), all of them in thorough and a sample in quick, plus random larger ones, repeated output indices, the empty list, mv, mm and the Viterbi variant; "
+                    "selection of distinct output indices), all of them in thorough and a sample in quick, plus random larger ones, repeated output indices, an index with >= 4 attachments, the empty list, mv, mm, the Viterbi variant, and reduce_equation/post_einsum called directly on strided tensors with stride-0 and size-1 dimensions; "
                     "patterns from the typed generator (exhaustive pairs of axes for the small types on i,i-> / i,i->i); non-trivial = some operand has a non-physical axis, a diagonal or an expanded (stride-0) dimension; distinct by full case data" % n_sigs,
                signatures_enumerated=n_sigs, histogram=hist, verdicts=verdicts, kernel_reevaluated=kern,
                theorem_certificate=dict(cases=n_cert, verdicts=cert_hist,
                                         meaning="0 = the decidable premises of C07_patterned_eq_dense_partial / C07_zero_result_partial hold for the case (soundness and completeness); 1 = only those of the soundness half; other = the theorem does not apply (see notes)",
                                         viterbi_cases=sum(vcert_hist.values()), viterbi_verdicts=vcert_hist,
-                                        viterbi_meaning="as above for the Viterbi variant, plus the premises of C07_argmax; 5 = pointer premises fail (expected exactly for repeated output indices: F24)"),
+                                        viterbi_meaning="as above for the Viterbi variant, plus the premises of C07_argmax (5 = pointer premises fail)"),
                samples=samples, open_items=OPEN_ITEMS)
     return cov, violations
 
@@ -520,6 +606,12 @@ def case_of_json(c):
 
 def replay(path):
     r = json.load(open(path))
+    if r["case"].get("variant") == "reduce":
+        c = dict(r["case"]); c["views"] = [dict(dims=[tuple(d) for d in v["dims"]], offset=v["offset"], storage=[_fix(x) for x in v["storage"]]) for v in c["views"]]
+        v, exc = run_reduce_impl(c)
+        code = run_coq(RED_REAL if c["sem"] == "real" else RED_TROP, [v], tag="replay")[0]
+        print("case:", c); print("implementation now:", v[2], v[3], exc); print("verdict code:", code, VERDICTS.get(code, ""))
+        return 1 if code else 0
     case = case_of_json(r["case"])
     res, spy, ptr, exc, changed = run_impl(case)
     cf = checkfn_of(case)
@@ -531,7 +623,7 @@ def replay(path):
 
 MANIFEST = dict(
     level="proof",
-    text="Coq theorems about a Gallina model of fggs.indices.einsum / log_viterbi_einsum_forward / project and fggs.equation.reduce_equation / post_einsum: the dense specification (empty list = one, zero-size summed index = zero, permutation invariance), the patterned algorithm equals the specification on the operands' denotations (re-indexing of the sum over virtual indices by the injective physical parametrisation; soundness half without the completeness premise), reduce_equation is sound, the Viterbi pointers attain the maximum and are eval of the summed axes at the physical argmax, mv/mm are instances. The model is tied to /repo by running both on generated signatures x typed patterns x 4 semirings x requires_grad; the specification applied to brute-force denotations judges every implementation output inside Coq (exact carriers).",
-    note="Trusted: Coq kernel + vm_compute, extraction cross-checked against vm_compute, the Python harness (numbering of PhysicalAxis objects, reading of torch storage/strides, exp reading of the Log semiring within 1e-9), torch_semiring_einsum as the dense einsum under test.",
+    text="Coq theorems about a Gallina model of fggs.indices.einsum / log_viterbi_einsum_forward / project and fggs.equation.reduce_equation / post_einsum: the dense specification (empty list = one, zero-size summed index = zero, permutation invariance), the patterned algorithm equals the specification on the operands' denotations (re-indexing of the sum over virtual indices by the injective physical parametrisation; soundness half without the completeness premise; under decidable premises evaluated per case), reduce_equation is sound, the Viterbi pointers attain the maximum and are eval of the summed axes at the physical argmax (also for repeated output indices, repaired in /repo 3f6a623), mv/mm are instances. The model is tied to /repo by running both on generated signatures x typed patterns x 4 semirings x requires_grad; the specification applied to brute-force denotations judges every implementation output inside Coq (exact carriers).",
+    note="Known finding F23: log_viterbi_einsum_forward computes +inf + -inf = nan (torch_semiring_einsum's plain addition). Trusted: Coq kernel + vm_compute, extraction cross-checked against vm_compute, the Python harness (numbering of PhysicalAxis objects, reading of torch storage/strides, exp reading of the Log semiring within 1e-9), torch_semiring_einsum as the dense einsum under test.",
     technique="Coq proof (model + theorems) + model/implementation correspondence with a verified dense-specification oracle + per-case evaluation of the theorem's decidable premises",
     design_ref="DESIGN.md section 6, C07; section 7; Appendix A.6")
